@@ -7,6 +7,15 @@ C15.match  every ComposeRequest(Multi)::is_answer impl returns true only on
            TSIG wrappers delegate.
 C15.ans    a response is handed to a waiter as Ok(..) only on the true edge of
            is_answer / check_stream (stream demux, datagram receive loop).
+C15.slot   Queries::insert hands out only an index whose slot it has just seen
+           vacant (or the freshly pushed one): a pending request is never
+           overwritten and its wire ID never reused while it is outstanding.
+C15.dgdl   the datagram client's receive loop waits against a deadline fixed
+           per attempt (timeout_at, or a duration recomputed from it), so
+           unrelated or wrong-ID datagrams cannot stretch the wait.
+C15.cfg    the per-request limit multi_stream applies is the value of its own
+           `response_timeout` setting (the field its getter returns), and
+           every stream::Config field the transport reads can be set.
 C15.once   stream demux removes the slot before delivery and re-inserts only
            for unfinished streams; Queries keeps `count` in step with the
            occupied slots (decrement only when a slot was actually vacated).
@@ -34,6 +43,9 @@ def run(ctx):
     rule_once(ctx, F)
     rule_tc(ctx, F)
     rule_deadline(ctx, F)
+    rule_slot(ctx, F)
+    rule_dgdl(ctx, F)
+    rule_cfg(ctx, F)
 
 
 def _has_fact(facts, pred):
@@ -293,3 +305,125 @@ def rule_deadline(ctx, F):
                "multi_stream::Request::get_response awaits %s without tokio::time::timeout(remaining, ..): the request "
                "can outlast the configured response timeout" % what, b.where(bi))
     ctx.call_sites += n
+
+
+def rule_slot(ctx, F):
+    R = "C15.slot"
+    ctx.floor(R, 1)
+    b = F.one_body(r"^net::client::stream::Queries::<T>::insert$")
+    if not ctx.anchor(R, "Queries::insert", b):
+        return
+    n = 0
+    for bi in sorted(b.reachable_blocks()):
+        for st in b.blocks[bi]["s"]:
+            if st[0] != "=" or st[2][0] != "agg" or st[2][1][0] != "adt" or st[2][1][1] != "core::option::Option" or st[2][1][2] != "Some":
+                continue
+            ops = st[2][2]
+            if not ops or ops[0][0] not in ("c", "m") or len(ops[0][1]) != 1 or b.locals[ops[0][1][0]] != "usize":
+                continue
+            n += 1
+            vacant = False
+            for tt, v, _ in facts_at(b, bi, F):
+                s = show(deep_strip(tt))
+                if (v is True and "is_none(" in s and ".vec" in s) or (v is False and "is_some(" in s and ".vec" in s) or \
+                        (v == ("variant", "None") and ".vec" in s):
+                    vacant = True
+            ctx.ob(R, b, "candidate index #%d was seen vacant" % n, vacant,
+                   "Queries::insert picks an index for the new request without having checked that the slot is empty: a request "
+                   "that is still outstanding is overwritten and its ID goes out a second time -- the answer to the old request is "
+                   "delivered to the new one", b.where(bi))
+
+
+def rule_dgdl(ctx, F):
+    from rulelib import cyclic_blocks
+    R = "C15.dgdl"
+    ctx.floor(R, 1)
+    bs = [b for p, b in F.bodies.items() if re.match(r"^net::client::dgram::Connection::<S>::handle_request_impl::<.*>::\{closure#0\}$|"
+                                                      r"^net::client::dgram::Connection::<S>::handle_request_impl::\{closure#0\}$", p)]
+    if not ctx.anchor(R, "dgram::Connection::handle_request_impl", len(bs) == 1):
+        return
+    b = bs[0]
+    cyc = cyclic_blocks(b)
+    n = 0
+    for bi, t in b.calls():
+        if not (t["fn"] or "").endswith("IntoFuture::into_future"):
+            continue
+        a = deep_strip(b.term_of_operand(t["args"][0]))
+        if a[0] != "call" or not re.search(r"::recv(_from)?$", " ".join(s[1] or "" for s in walk(a) if s[0] == "call")) and "recv" not in show(a):
+            continue
+        n += 1
+        fn = a[1] or ""
+        if re.search(r"time::(timeout::)?timeout_at$", fn):
+            ok = True
+            how = "timeout_at(deadline, ..)"
+        elif re.search(r"time::(timeout::)?timeout$", fn):
+            d = show(deep_strip(a[3][0])) if a[3] else ""
+            ok = bool(re.search(r"duration_since|saturating_duration_since|checked_duration_since|Sub\(", d))
+            how = "timeout(%s, ..)" % d[:50]
+        else:
+            ok = False
+            how = "no time limit (%s)" % fn.split("::")[-1]
+        ctx.ob(R, b, "receive await #%d is bounded by the attempt's deadline" % n, ok,
+               "the datagram client waits for a reply with %s inside its receive loop: every datagram that is not the answer "
+               "(wrong ID, garbage) starts a full new window, so a request can be kept waiting far beyond read_timeout x "
+               "(1 + max_retries)" % how, b.where(bi))
+
+
+def rule_cfg(ctx, F):
+    R = "C15.cfg"
+    ctx.floor(R, 2)
+    # multi_stream: the limit applied per request is the `response_timeout` setting
+    g = F.one_body(r"^net::client::multi_stream::Config::response_timeout$")
+    w = [b for p, b in F.bodies.items() if re.match(r"^net::client::multi_stream::Connection::<Req>::with_config(::<.*>)?$", p)]
+    if ctx.anchor(R, "multi_stream::Config::response_timeout and Connection::with_config", g is not None and len(w) == 1):
+        gf = [show(deep_strip(term)) for _, _, _, term in return_assignments(g) if term is not None]
+        field = gf[0].split(".")[-1] if gf else None
+        used = None
+        for bi in w[0].reachable_blocks():
+            for st in w[0].blocks[bi]["s"]:
+                if st[0] == "=" and st[2][0] == "agg" and st[2][1][0] == "adt" and str(st[2][1][1]).endswith("multi_stream::Connection"):
+                    names = list(st[2][1][3])
+                    if "response_timeout" in names:
+                        used = show(deep_strip(w[0].term_of_operand(st[2][2][names.index("response_timeout")])))
+        ctx.ob(R, w[0], "the per-request limit is the `response_timeout` setting", field is not None and used is not None and used.endswith("arg2." + field),
+               "multi_stream::Connection::with_config takes the per-request limit from `%s` while Config::response_timeout() / "
+               "set_response_timeout() operate on `%s`: the configured timeout is not the one applied" % (used, field))
+    # stream: every Config field read by the transport has a setter
+    cfg = F.adts.get("net::client::stream::Config")
+    if ctx.anchor(R, "struct net::client::stream::Config", cfg is not None):
+        import json
+        fields = [f["name"] for f in cfg["variants"][0]["fields"]]
+        written, read = set(), set()
+        for p, b in F.bodies.items():
+            if not p.startswith(("net::client::stream::", "<net::client::stream::")) or "::test" in p:
+                continue
+            is_setter = re.match(r"^net::client::stream::Config::set_\w+$", p) is not None
+            is_ctor = re.search(r"Config as core::default::Default>::default$|Config::new$|Config as core::clone::Clone>::clone$", p) is not None
+            for bi in b.reachable_blocks():
+                for st in b.blocks[bi]["s"]:
+                    if st[0] != "=":
+                        continue
+                    lhs = st[1]
+                    if is_setter and len(lhs) >= 2 and isinstance(lhs[-1], (list, tuple)) and lhs[-1][0] == "." and lhs[-1][2] in fields:
+                        written.add(lhs[-1][2])
+                    if not is_setter and not is_ctor and not re.match(r"^net::client::stream::Config::\w+$", p):
+                        txt = json.dumps(st[2])
+                        for f in fields:
+                            if re.search(r'\["\.", \d+, "%s"\]' % re.escape(f), txt) and ("config" in txt.lower() or True):
+                                # only count reads through a Config-typed place
+                                read.add(f)
+        cfg_reads = set()
+        for p, b in F.bodies.items():
+            if not p.startswith(("net::client::stream::Transport", "<net::client::stream::Transport")):
+                continue
+            for bi in b.reachable_blocks():
+                for st in b.blocks[bi]["s"]:
+                    if st[0] == "=":
+                        s = show(deep_strip(b.term_of_rvalue(st[2])))
+                        for f in fields:
+                            if re.search(r"config\.%s\b" % re.escape(f), s):
+                                cfg_reads.add(f)
+        for f in sorted(cfg_reads):
+            ctx.ob(R, "net::client::stream::Config", "field %s, which the transport reads, can be set" % f, f in written,
+                   "the stream transport reads Config.%s but no setter ever writes it: whatever timeout the user configures, the "
+                   "transport goes on using the default for this field" % f)
